@@ -87,7 +87,11 @@ func zzMemFS() string {
 	return "zzdir"
 }
 
-var zzVhNames = [][]string{{"vh0"}, {"vh0", "vh1"}, {"re/v1"}, {"vh0", "re/v1"}}
+// names around the MaxFilePath (128) truncation of the file name: 126, 128 and 131 bytes
+var zzLong = strings.Repeat("svc.cluster.local-", 8)
+
+var zzVhNames = [][]string{{"vh0"}, {"vh0", "vh1"}, {"re/v1"}, {"vh0", "re/v1"},
+	{zzLong[:126]}, {"vh0", zzLong[:128]}, {zzLong[:131], "vh1"}}
 
 func VerifC19_RouterDirectoryMode() {
 	dir := zzMemFS()
